@@ -1,3 +1,495 @@
 """Predicates recognising the specific failing input class of each recorded
-finding (see known_findings.json).  Each takes the violation record (dict)."""
+finding (see known_findings.json).  Each takes the violation record (dict) and
+answers whether that record is an instance of *that* defect: op + the
+structural condition on the procedure/arguments that triggers it.  A violation
+of the same property by another op, or by the same op on an input outside the
+condition, is not matched and is reported as VIOLATION.
+"""
 from __future__ import annotations
+
+import functools
+import json
+import re
+
+from exo.core.LoopIR import LoopIR, T
+
+
+def _key(r):
+    return json.dumps([r.get("seed"), r.get("chain"), r.get("op"), r.get("enc")], sort_keys=True, default=str)
+
+
+_cache = {}
+
+
+def _ctx(r):
+    k = _key(r)
+    if k not in _cache:
+        from .rebuild import rebuild
+
+        if len(_cache) > 200:
+            _cache.clear()
+        _cache[k] = rebuild(r)
+    return _cache[k]
+
+
+def _reads_in(node, name, out):
+    """collect Read/WindowExpr nodes of `name` under node"""
+    if isinstance(node, (LoopIR.Read, LoopIR.WindowExpr)) and (name is None or node.name == name):
+        out.append(node)
+    for ch in _children(node):
+        _reads_in(ch, name, out)
+    return out
+
+
+def _children(n):
+    if isinstance(n, LoopIR.Read):
+        return list(n.idx)
+    if isinstance(n, LoopIR.WindowExpr):
+        out = []
+        for w in n.idx:
+            out += [w.pt] if isinstance(w, LoopIR.Point) else [w.lo, w.hi]
+        return out
+    if isinstance(n, LoopIR.BinOp):
+        return [n.lhs, n.rhs]
+    if isinstance(n, LoopIR.USub):
+        return [n.arg]
+    if isinstance(n, LoopIR.Extern):
+        return list(n.args)
+    if isinstance(n, (LoopIR.Assign, LoopIR.Reduce)):
+        return list(n.idx) + [n.rhs]
+    if isinstance(n, LoopIR.WriteConfig):
+        return [n.rhs]
+    if isinstance(n, LoopIR.If):
+        return [n.cond] + list(n.body) + list(n.orelse)
+    if isinstance(n, LoopIR.For):
+        return [n.lo, n.hi] + list(n.body)
+    if isinstance(n, LoopIR.Call):
+        return list(n.args)
+    if isinstance(n, LoopIR.WindowStmt):
+        return [n.rhs]
+    if isinstance(n, LoopIR.Alloc):
+        return list(n.type.shape()) if n.type.is_tensor_or_window() else []
+    return []
+
+
+def _writes_in(node, out):
+    if isinstance(node, (LoopIR.Assign, LoopIR.Reduce)):
+        out.append(node.name)
+    if isinstance(node, LoopIR.Call):
+        for a in node.args:
+            if isinstance(a, (LoopIR.Read, LoopIR.WindowExpr)) and a.type.is_numeric():
+                out.append(a.name)
+    for ch in _children(node):
+        if isinstance(ch, LoopIR.stmt):
+            _writes_in(ch, out)
+    return out
+
+
+def _uses(node, name):
+    return bool(_reads_in(node, name, [])) or (name in _writes_in(node, [])) or _stride_uses(node, name)
+
+
+def _stride_uses(node, name):
+    if isinstance(node, LoopIR.StrideExpr) and node.name == name:
+        return True
+    return any(_stride_uses(c, name) for c in _children(node))
+
+
+def _block_and_index(cursor_impl):
+    """(list of sibling stmt nodes, index) of a statement cursor"""
+    par = cursor_impl.parent()
+    attr, idx = cursor_impl._path[-1]
+    return getattr(par._node, attr), idx
+
+
+# ---------------------------------------------------------------------------
+# C01
+
+
+def inline_assign_without_dataflow_check(r):
+    """DoInlineAssign only refuses when the same buffer is written later in the
+    block.  Matches when the inlined assignment is NOT the benign pattern
+    'buffer allocated earlier in the same block, all later reads use the same
+    index text, no rhs operand written afterwards'."""
+    if r.get("op") != "inline_assign":
+        return False
+    p, op, args, env = _ctx(r)
+    c = args[0]._impl
+    s1 = c._node
+    sibs, k = _block_and_index(c)
+    alloc_here = any(isinstance(s, LoopIR.Alloc) and s.name == s1.name for s in sibs[:k])
+    after = sibs[k + 1 :]
+    idx_txt = [str(i) for i in s1.idx]
+    same_idx = True
+    for s in after:
+        for rd in _reads_in(s, s1.name, []):
+            if isinstance(rd, LoopIR.WindowExpr) or [str(i) for i in rd.idx] != idx_txt:
+                same_idx = False
+    rhs_names = {rd.name for rd in _reads_in(s1.rhs, None, [])}
+    written_after = set()
+    for s in after:
+        written_after |= set(_writes_in(s, []))
+    operand_clobbered = bool(rhs_names & written_after)
+    benign = alloc_here and same_idx and not operand_clobbered
+    return not benign
+
+
+def _eval_small(expr, env):
+    if isinstance(expr, int):
+        return expr
+    txt = str(expr).replace("/", "//")
+    return eval(txt, {"__builtins__": {}}, dict(env))
+
+
+def _cex_env(r, p):
+    env = {}
+    cex = r.get("cex") or {}
+    for a, v in zip(p._loopir_proc.args, cex.get("args", [])):
+        if not isinstance(v, dict):
+            env[a.name.name()] = v
+    return env
+
+
+def divide_with_recompute_zero_outer_or_nonzero_lo(r):
+    """divide_with_recompute never checks outer_hi >= 1 nor that the loop starts at 0."""
+    if r.get("op") != "divide_with_recompute":
+        return False
+    p, op, args, env = _ctx(r)
+    loop = args[0]._impl._node
+    lo_nonzero = not (isinstance(loop.lo, LoopIR.Const) and loop.lo.val == 0)
+    if lo_nonzero:
+        return True
+    try:
+        v = _eval_small(args[1], _cex_env(r, p))
+        return v < 1
+    except NameError:
+        # outer_hi mentions an enclosing loop iterator, which starts at 0
+        return True
+    except Exception:
+        return False
+
+
+def stage_mem_write_only_partial(r):
+    """stage_mem on a block that only writes part of the staged window: no load
+    phase is emitted but the whole window is stored back."""
+    if r.get("op") != "stage_mem":
+        return False
+    p, op, args, env = _ctx(r)
+    if args[3] is not False:
+        return False
+    m = re.match(r"(\w+)", args[1])
+    if not m:
+        return False
+    buf = m.group(1)
+    blk = [c._node for c in args[0]._impl]
+    # the block must not read the buffer (else a load phase exists)
+    for s in blk:
+        if any(str(rd.name) == buf for rd in _all_reads(s)):
+            return False
+        if _has_reduce(s, buf):
+            return False
+    return "undefined" in str(r.get("detail"))
+
+
+def _all_reads(node, out=None):
+    out = [] if out is None else out
+    if isinstance(node, (LoopIR.Read, LoopIR.WindowExpr)):
+        out.append(node)
+    for ch in _children(node):
+        _all_reads(ch, out)
+    return out
+
+
+def _has_reduce(node, buf):
+    if isinstance(node, LoopIR.Reduce) and str(node.name) == buf:
+        return True
+    return any(_has_reduce(c, buf) for c in _children(node) if isinstance(c, LoopIR.stmt))
+
+
+def resize_dim_fold(r):
+    """resize_dim(..., fold=True): CheckFoldBuffer misses reads that are the whole right-hand side."""
+    if r.get("op") != "resize_dim":
+        return False
+    p, op, args, env = _ctx(r)
+    return args[4] is True
+
+
+def fuse_loops_different_lo(r):
+    """fuse of two loops compares only the upper bounds."""
+    if r.get("op") != "fuse":
+        return False
+    p, op, args, env = _ctx(r)
+    a, b = args[0]._impl._node, args[1]._impl._node
+    if not (isinstance(a, LoopIR.For) and isinstance(b, LoopIR.For)):
+        return False
+    return str(a.lo) != str(b.lo)
+
+
+# ---------------------------------------------------------------------------
+# C04
+
+
+def _binders(stmts):
+    return [s for s in stmts if isinstance(s, (LoopIR.Alloc, LoopIR.WindowStmt))]
+
+
+def delete_config_on_non_config_stmt(r):
+    """delete_config accepts any statement cursor and deletes it."""
+    if r.get("op") != "delete_config":
+        return False
+    p, op, args, env = _ctx(r)
+    return not isinstance(args[0]._impl._node, LoopIR.WriteConfig)
+
+
+def _block_nodes_and_rest(block_impl):
+    anchor = block_impl._anchor._node
+    sibs = getattr(anchor, block_impl._attr)
+    rng = block_impl._range
+    return sibs[rng.start : rng.stop], sibs[rng.stop :]
+
+
+def block_op_hides_binder(r):
+    """extract_subproc / add_loop / specialize wrap or move a block that contains an
+    Alloc or WindowStmt whose name is still used after the block."""
+    if r.get("op") not in ("extract_subproc", "add_loop", "specialize"):
+        return False
+    p, op, args, env = _ctx(r)
+    blk, rest = _block_nodes_and_rest(args[0]._impl)
+    for b in _binders(blk):
+        if any(_uses(s, b.name) for s in rest):
+            return True
+    return False
+
+
+def reorder_stmts_binder_past_use(r):
+    """reorder_stmts moves an Alloc/WindowStmt after a statement that uses it."""
+    if r.get("op") != "reorder_stmts":
+        return False
+    p, op, args, env = _ctx(r)
+    blk, rest = _block_nodes_and_rest(args[0]._impl)
+    if len(blk) != 2:
+        return False
+    a, b = blk
+    return isinstance(a, (LoopIR.Alloc, LoopIR.WindowStmt)) and _uses(b, a.name)
+
+
+def loop_rewrite_misses_alloc_shape(r):
+    """iterator substitution of loop rewrites does not descend into Alloc shapes:
+    a buffer sized by the rewritten loop's iterator keeps the dead iterator."""
+    if r.get("op") not in ("divide_loop", "divide_with_recompute", "mult_loops", "shift_loop", "cut_loop", "join_loops", "unroll_loop", "remove_loop"):
+        return False
+    if r.get("kind") != "wellformed":
+        return False
+    p, op, args, env = _ctx(r)
+    loop = args[0]._impl._node
+    if not isinstance(loop, LoopIR.For):
+        return False
+
+    def alloc_uses_iter(stmts):
+        for s in stmts:
+            if isinstance(s, LoopIR.Alloc) and s.type.is_tensor_or_window():
+                for h in s.type.shape():
+                    if any(rd.name == loop.iter for rd in _all_reads(h)):
+                        return True
+            for attr in ("body", "orelse"):
+                if hasattr(s, attr) and alloc_uses_iter(getattr(s, attr)):
+                    return True
+        return False
+
+    return alloc_uses_iter(loop.body)
+
+
+def rewrite_expr_literal_type(r):
+    """rewrite_expr replaces a float literal by an int literal (different type); the backend then asserts."""
+    if r.get("op") != "rewrite_expr" or r.get("kind") != "compile_crash":
+        return False
+    p, op, args, env = _ctx(r)
+    node = args[0]._impl._node
+    # a data-typed literal replaced by an integer literal or an index expression
+    return isinstance(node, LoopIR.Const) and node.type.is_real_scalar() and (isinstance(args[1], int) or isinstance(args[1], str))
+
+
+def replace_infers_empty_window(r):
+    """replace() unifies a callee whose size argument is not pinned by the replaced
+    statements with size 0 and an empty window x[0:0]."""
+    if r.get("op") != "replace":
+        return False
+    return bool(re.search(r"\[\s*0\s*:\s*0\s*[\],]", r.get("q_src") or ""))
+
+
+def _all_stmts(stmts, out=None):
+    out = [] if out is None else out
+    for s in stmts:
+        out.append(s)
+        for attr in ("body", "orelse"):
+            if hasattr(s, attr):
+                _all_stmts(getattr(s, attr), out)
+    return out
+
+
+def extract_subproc_free_window_alias(r):
+    """extract_subproc does not pass names bound by a WindowStmt outside the block:
+    the new sub-procedure's body uses the alias as a free variable."""
+    if r.get("op") != "extract_subproc":
+        return False
+    p, op, args, env = _ctx(r)
+    blk, rest = _block_nodes_and_rest(args[0]._impl)
+    inside = {s.name for s in _all_stmts(blk) if isinstance(s, LoopIR.WindowStmt)}
+    aliases = {s.name for s in _all_stmts(p._loopir_proc.body) if isinstance(s, LoopIR.WindowStmt)} - inside
+    return any(_uses(s, a) for s in blk for a in aliases)
+
+
+def fission_splits_binder_from_use(r):
+    """fission/autofission at a gap that separates an Alloc/WindowStmt from later uses in the same block."""
+    if r.get("op") not in ("fission", "autofission"):
+        return False
+    p, op, args, env = _ctx(r)
+    gap = args[0]._impl
+    anchor = gap._anchor
+    sibs, k = _block_and_index(anchor)
+    cut = k if gap._type.name == "Before" else k + 1
+    pre, post = sibs[:cut], sibs[cut:]
+    return any(_uses(s, b.name) for b in _binders(pre) for s in post)
+
+
+def stage_mem_window_use_not_stored_back(r):
+    """stage_mem treats WindowExpr uses of the staged buffer (window call arguments,
+    WindowStmt aliases) as reads only: writes made through them land in the staging
+    buffer and are never copied back."""
+    if r.get("op") != "stage_mem":
+        return False
+    p, op, args, env = _ctx(r)
+    m = re.match(r"(\w+)", args[1])
+    if not m:
+        return False
+    buf = m.group(1)
+    blk = [c._node for c in args[0]._impl]
+    for s in _all_stmts(blk):
+        if isinstance(s, LoopIR.Call):
+            if any(isinstance(a, LoopIR.WindowExpr) and str(a.name) == buf for a in s.args):
+                return True
+            if any(isinstance(a, LoopIR.Read) and str(a.name) == buf and a.type.is_numeric() for a in s.args):
+                return True
+        if isinstance(s, LoopIR.WindowStmt) and str(s.rhs.name) == buf:
+            return True
+    return False
+
+
+def _syms_by_name(p_ir):
+    names = {}
+    for s in _all_stmts(p_ir.body):
+        if isinstance(s, LoopIR.For):
+            names.setdefault(s.iter.name(), set()).add(s.iter)
+        if isinstance(s, (LoopIR.Alloc, LoopIR.WindowStmt)):
+            names.setdefault(s.name.name(), set()).add(s.name)
+    for a in p_ir.args:
+        names.setdefault(a.name.name(), set()).add(a.name)
+    return names
+
+
+def simplify_facts_keyed_by_name(r):
+    """DoSimplify records facts from guards/loops keyed by the printed variable name: with two
+    distinct symbols of the same name a fact about one rewrites the other."""
+    if r.get("op") != "simplify":
+        return False
+    p, op, args, env = _ctx(r)
+    return any(len(v) > 1 for v in _syms_by_name(p._loopir_proc).values())
+
+
+def _has_mod_with_negative_numerator(p_ir):
+    found = []
+
+    def neg(e):
+        if isinstance(e, LoopIR.BinOp) and e.op == "-":
+            return True
+        if isinstance(e, LoopIR.USub):
+            return True
+        if isinstance(e, LoopIR.Const) and isinstance(e.val, int) and e.val < 0:
+            return True
+        return any(neg(c) for c in _children(e))
+
+    def walk(n):
+        if isinstance(n, LoopIR.BinOp) and n.op == "%" and neg(n.lhs):
+            found.append(n)
+        for c in _children(n):
+            walk(c)
+
+    for s in p_ir.body:
+        walk(s)
+    return bool(found)
+
+
+def simplify_mod_upper_bound_only(r):
+    """modulo_simplification drops `e % m` when e < m is provable, without requiring 0 <= e."""
+    if r.get("op") != "simplify":
+        return False
+    p, op, args, env = _ctx(r)
+    return _has_mod_with_negative_numerator(p._loopir_proc)
+
+
+def join_loops_bodies_differ_in_length(r):
+    """LoopIR_Compare zips the two loop bodies: extra statements of the longer one are dropped."""
+    if r.get("op") != "join_loops":
+        return False
+    p, op, args, env = _ctx(r)
+    a, b = args[0]._impl._node, args[1]._impl._node
+    return len(a.body) != len(b.body)
+
+
+def bind_expr_on_call_argument(r):
+    """bind_expr of a scalar that is passed by reference to a call: the callee's write
+    goes to the new temporary."""
+    if r.get("op") != "bind_expr":
+        return False
+    p, op, args, env = _ctx(r)
+    c = args[0][0] if isinstance(args[0], list) else args[0]
+    return isinstance(c._impl.parent()._node, LoopIR.Call)
+
+
+def mult_loops_zero_inner(r):
+    """mult_loops with a literal inner bound <= 0 produces i / 0 and i % 0."""
+    if r.get("op") != "mult_loops":
+        return False
+    p, op, args, env = _ctx(r)
+    outer = args[0]._impl._node
+    inner = outer.body[0]
+    return isinstance(inner.hi, LoopIR.Const) and inner.hi.val <= 0
+
+
+def reuse_buffer_same_cursor(r):
+    """reuse_buffer(a, a): the allocation is deleted and replaced by itself."""
+    if r.get("op") != "reuse_buffer":
+        return False
+    p, op, args, env = _ctx(r)
+    return args[0]._impl._path == args[1]._impl._path
+
+
+def lift_alloc_shape_uses_crossed_iterator(r):
+    """(auto)lift_alloc / sink lifts an allocation whose shape mentions the iterator of a loop it is lifted out of."""
+    if r.get("op") not in ("autolift_alloc", "lift_alloc"):
+        return False
+    p, op, args, env = _ctx(r)
+    al = args[0]._impl._node
+    if not al.type.is_tensor_or_window():
+        return False
+    used = {rd.name for h in al.type.shape() for rd in _all_reads(h)}
+    cur = args[0]._impl.parent()
+    iters = set()
+    while isinstance(cur._node, (LoopIR.For, LoopIR.If)):
+        if isinstance(cur._node, LoopIR.For):
+            iters.add(cur._node.iter)
+        cur = cur.parent()
+    return bool(used & iters)
+
+
+def inline_window_of_windowed_alias(r):
+    """inline_window of an alias from which another WindowStmt is derived leaves that
+    derived window with a stale window type; the backend asserts."""
+    if r.get("op") != "inline_window":
+        return False
+    p, op, args, env = _ctx(r)
+    w = args[0]._impl._node
+    for s in _all_stmts(p._loopir_proc.body):
+        if isinstance(s, LoopIR.WindowStmt) and s is not w and s.rhs.name == w.name:
+            return True
+    return False
